@@ -162,6 +162,10 @@ def _real_signals(fn, args):
 
 
 def run(ctx):
+    # C18.5: ADC leaves its argument as it found it - a record quantised twice (two bit depths, both otype values) is the same record
+    # both times; an in-place `signal += input.noise` on an alias of input.signal turns the second conversion into signal + 2*noise
+    from .c14 import rule_inplace
+    rule_inplace(ctx, "C18.5", ["devices.ADC", "utils.shortest_int"])
     pkg = ctx.pkg
     fi = pkg.func("devices.ADC")
     top = fpow(Form.num(2), S("n")) - 1
